@@ -1,6 +1,7 @@
 package enga
 
 import (
+	"errors"
 	"fmt"
 	"os"
 	"path/filepath"
@@ -35,6 +36,7 @@ type Op struct {
 	// FailOnlyExec: when >= 1 the failure applies only to that execution (1-based) of the test in a
 	// process; in the other executions the same call is made without the failing matcher
 	FailOnlyExec int   `json:"fail_only_exec,omitempty"`
+	AltVal       *Val  `json:"alt_val,omitempty"` // the (valid) value of the executions in which the call is not rejected
 	Multi        []Val `json:"multi,omitempty"`
 	// Empty: MatchSnapshot(t) with no values at all (an empty slice spread into the call):
 	// a warning is logged, no slot is addressed, no ordinal consumed
@@ -194,8 +196,17 @@ func (v Val) fmt() string {
 	return krpretty.Sprint(v.S)
 }
 
+// failingMarshaler is a Go value the standard JSON and YAML encoders reject: its own
+// marshal methods return an error (a sensor that could not be read).
+type failingMarshaler struct{ Why string }
+
+func (f failingMarshaler) MarshalJSON() ([]byte, error) { return nil, errors.New(f.Why) }
+func (f failingMarshaler) MarshalYAML() ([]byte, error) { return nil, errors.New(f.Why) }
+
 func (v Val) arg() any {
 	switch v.Kind {
+	case "marshal-error":
+		return map[string]any{"reading": failingMarshaler{Why: v.S}}
 	case "go":
 		return v.G
 	default:
